@@ -202,17 +202,23 @@ then the booking of what the search found (`allocate_slot(_check=False)` does no
 steps may come in between. -/
 
 structure CState where
-  node : ANode
-  pend : List (Nat × ASlot)              -- thread k has found a slot and not booked it yet
-  got  : List (Nat × Option ASlot)       -- answers, in the order they were given
+  node  : ANode
+  pend  : List (Nat × ASlot)              -- thread k has found a slot and not booked it yet
+  rpend : List (Nat × ANode)              -- thread k has computed the node without a slot and not written it yet
+  got   : List (Nat × Option ASlot)       -- answers, in the order they were given
 deriving Repr
 
 inductive CStep where
   | call (k : Nat) (rr : RR)             -- thread k enters `find_slot`
   | book (k : Nat)                       -- thread k books what its search found (non-atomic code only)
+  | release (k : Nat) (sl : ASlot)       -- thread k gives a slot back (`deallocate_slot`)
+  | write (k : Nat)                      -- thread k writes back what its release computed (unlocked code only)
 deriving Repr
 
-def cstep (atomic : Bool) (s : CState) : CStep → CState
+/-- `atomic`: search and booking of `find_slot` share one lock section; `relAtomic`: `deallocate_slot` runs inside
+    the lock.  The unlocked variants are read-then-write: what was read may be stale when it is written (for the
+    release the whole record is written back here; the real code does so counter by counter) -/
+def cstep (atomic relAtomic : Bool) (s : CState) : CStep → CState
   | .call k rr =>
     match findSlot s.node rr with
     | none => { s with got := s.got ++ [(k, none)] }
@@ -222,15 +228,24 @@ def cstep (atomic : Bool) (s : CState) : CStep → CState
   | .book k =>
     match s.pend.find? (fun e => e.1 = k) with
     | none         => s
-    | some (_, sl) => { node := allocate s.node sl, pend := s.pend.filter (fun e => e.1 ≠ k),
-                        got := s.got ++ [(k, some sl)] }
+    | some (_, sl) => { s with node := allocate s.node sl, pend := s.pend.filter (fun e => e.1 ≠ k),
+                               got := s.got ++ [(k, some sl)] }
+  | .release k sl =>
+    if relAtomic then { s with node := deallocate s.node sl }
+    else { s with rpend := s.rpend ++ [(k, deallocate s.node sl)] }
+  | .write k =>
+    match s.rpend.find? (fun e => e.1 = k) with
+    | none        => s
+    | some (_, n) => { s with node := n, rpend := s.rpend.filter (fun e => e.1 ≠ k) }
 
-def crun (atomic : Bool) (s : CState) (steps : List CStep) : CState := steps.foldl (cstep atomic) s
+def crun (atomic relAtomic : Bool) (s : CState) (steps : List CStep) : CState := steps.foldl (cstep atomic relAtomic) s
 
-/-- the same calls one after the other, in the order the schedule lets them in -/
+/-- the same calls and releases one after the other, in the order the schedule lets them in -/
 def seqCalls (n : ANode) : List CStep → ANode × List (Nat × Option ASlot)
   | []                  => (n, [])
   | .book _ :: rest     => seqCalls n rest
+  | .write _ :: rest    => seqCalls n rest
+  | .release _ sl :: rest => seqCalls (deallocate n sl) rest
   | .call k rr :: rest  =>
     match findSlot n rr with
     | none          => ((seqCalls n rest).1, (k, none) :: (seqCalls n rest).2)
